@@ -50,6 +50,24 @@ def check_render(ctx, html, seq, palette, what):
     ctx.check(stripped == seq, "roundtrip", "%s: stripping the markup gives %r, sequence is %r" % (what, stripped[:80], seq[:80]))
 
 
+class _PaletteDict(dict):
+    """A user-defined dictionary class (e.g. a settings object that derives from dict)."""
+
+
+def as_container(kind, palette):
+    """The same palette in the dictionary flavours a caller may hold it in: they are all dictionaries."""
+    import collections
+    if kind == "OrderedDict":
+        return collections.OrderedDict(palette)
+    if kind == "defaultdict" and all(a in palette for a in ref.AA):     # (with a key missing a defaultdict still "gives" a colour: not asserted)
+        dd = collections.defaultdict(lambda: "black")
+        dd.update(palette)
+        return dd
+    if kind == "subclass":
+        return _PaletteDict(palette)
+    return dict(palette)
+
+
 class Sim:
     """Two live objects, each with its own model palette (a palette update on one must not show on the other)."""
 
@@ -77,7 +95,7 @@ class Sim:
             self.caller.update(args["palette"])
             d = self.caller
         else:
-            d = dict(args["palette"])
+            d = as_container(args.get("container", "dict"), args["palette"])
         valid = all(a in d for a in ref.AA) and all(isinstance(d[a], str) and d[a] in COLOURS for a in ref.AA)
         ok, res = util.exc_name(self.objs[k].set_HTMLColorResiduePalette, d)
         if valid:
@@ -109,7 +127,8 @@ def palettes(draw):
     d = {a: draw(st.sampled_from(COLOURS)) for a in ref.AA}
     how = draw(st.sampled_from(["valid", "valid", "valid-extra", "missing", "missing-extra", "bad-colour", "late-bad-colour"]))
     if how == "valid-extra":
-        d[draw(st.sampled_from(["X", "B", "a", "*", "AA"]))] = draw(st.sampled_from(COLOURS + ["pink"]))
+        # entries for anything but the 20 amino acids are not the palette's business, whatever their value
+        d[draw(st.sampled_from(["X", "B", "a", "*", "AA", "-", "name"]))] = draw(st.sampled_from(COLOURS + ["pink", None, 0, 2.5, ["red"], ""]))
         how = "valid"
     elif how == "missing":
         del d[draw(st.sampled_from(list(ref.AA)))]
@@ -125,7 +144,7 @@ def palettes(draw):
     elif how == "late-bad-colour":
         # the invalid entry is the alphabetically last amino acid: a key-by-key commit would already have changed earlier ones
         d[draw(st.sampled_from(["Y", "W", "V"]))] = "pink"
-    out = {"palette": d, "why": how, "obj": draw(st.integers(0, 1))}
+    out = {"palette": d, "why": how, "obj": draw(st.integers(0, 1)), "container": draw(st.sampled_from(["dict", "dict", "dict", "OrderedDict", "defaultdict", "subclass"]))}
     if draw(st.integers(0, 2)) == 0:
         out["reuse"] = True
         if draw(st.booleans()):
